@@ -35,6 +35,16 @@ def setup(x64: bool | None = None):
     import jax
 
     jax.config.update("jax_enable_x64", bool(x64))
+    cache = os.environ.get("MC_JAX_CACHE", os.path.join(os.path.dirname(os.path.dirname(os.path.abspath(__file__))), ".scratch", "jaxcache"))
+    if cache in ("0", "off"):
+        cache = ""
+    if cache:
+        # persistent XLA compilation cache (keyed by the HLO, so edits to /repo never hit stale entries):
+        # the 16 workers stop recompiling the same small kernels
+        os.makedirs(cache, exist_ok=True)
+        jax.config.update("jax_compilation_cache_dir", cache)
+        jax.config.update("jax_persistent_cache_min_compile_time_secs", 0.0)
+        jax.config.update("jax_persistent_cache_min_entry_size_bytes", -1)
     _equinox_shim()
 
 
